@@ -235,26 +235,60 @@ class CType:
                 for x in p[1]:
                     walk(x)
         walk(self.particle)
-        for (lid, nsc, pc) in self.wild:
-            for (ns, local) in self.table:
-                if nsc_allows(nsc, ns):
-                    raise ValueError('content model of %r is not UPA-clean: wildcard admits %r' % (self.name, (ns, local)))
-        for i, (l1, n1, p1) in enumerate(self.wild):
-            for (l2, n2, p2) in self.wild[i + 1:]:
-                for ns in (T, U, O, None, 'urn:zz'):
-                    if nsc_allows(n1, ns) and nsc_allows(n2, ns):
-                        raise ValueError('content model of %r is not UPA-clean: wildcards overlap' % (self.name,))
         self.regex = to_regex(self.particle, self)
+        u = upa_check(self)
+        if u is not True:
+            raise ValueError('content model of %r is not UPA-clean (%r)' % (self.name, u))
 
-    def leaf_for(self, ns, local):
-        """('e', lid, particle decl, actual decl) | ('any', lid, pc) | None"""
+    def candidates(self, ns, local):
+        """leaves whose name test accepts the expanded name: [('e', lid, particle decl, actual decl) | ('any', lid, pc)].
+        Which of them consumes a child depends on the position (decided by the matcher); in a UPA-clean model it is unique."""
+        out = []
         t = self.table.get((ns, local))
         if t is not None:
-            return ('e',) + t
+            out.append(('e',) + t)
         for (lid, nsc, pc) in self.wild:
             if nsc_allows(nsc, ns):
-                return ('any', lid, pc)
-        return None
+                out.append(('any', lid, pc))
+        return out
+
+
+def upa_check(t, limit=6000):
+    """Unique Particle Attribution by exploring every reachable derivative state: no state may offer two different leaves
+    whose name tests overlap.  True | description of the conflict | None (state budget exceeded)"""
+    leaves = t.leaves
+    names = {}
+    for key, (lid, d, c) in t.table.items():
+        names.setdefault(lid, []).append(key)
+
+    def overlap(l1, l2):
+        p1, p2 = leaves[l1], leaves[l2]
+        if p1[0] == 'e' and p2[0] == 'e':
+            return bool(set(names.get(l1, [])) & set(names.get(l2, [])))
+        if p1[0] == 'e' or p2[0] == 'e':
+            e, w = (l1, p2) if p1[0] == 'e' else (l2, p1)
+            return any(nsc_allows(w[1], k[0]) for k in names.get(e, []))
+        return any(nsc_allows(p1[1], ns) and nsc_allows(p2[1], ns) for ns in (T, U, O, None, 'urn:zz'))
+    seen = {t.regex}
+    todo = [t.regex]
+    while todo:
+        r = todo.pop()
+        firsts = []
+        for lid in range(len(leaves)):
+            d = deriv(r, lid)
+            if d != VOID:
+                firsts.append((lid, d))
+        for i in range(len(firsts)):
+            for j in range(i + 1, len(firsts)):
+                if overlap(firsts[i][0], firsts[j][0]):
+                    return 'leaves %d and %d compete' % (firsts[i][0], firsts[j][0])
+        for lid, d in firsts:
+            if d not in seen:
+                seen.add(d)
+                todo.append(d)
+                if len(seen) > limit:
+                    return None
+    return True
 
 
 ANYTYPE = CType.__new__(CType)
@@ -453,9 +487,13 @@ def _deriv(r, a):
 
 
 def regex_match(regex, leafseq):
+    """leafseq: per child either a leaf id or a collection of candidate leaf ids"""
     r = regex
     for a in leafseq:
-        r = deriv(r, a)
+        if isinstance(a, int):
+            r = deriv(r, a)
+        else:
+            r = _or([deriv(r, x) for x in a])
         if r == VOID:
             return False
     return nullable(r)
@@ -481,7 +519,7 @@ def naive_match(p, leafseq, ctype=None):
     def once(p, i):
         k = p[0]
         if k in ('e', 'any'):
-            return {i + 1} if i < n and leafseq[i] == ids[id(p)] else set()
+            return {i + 1} if i < n and (leafseq[i] == ids[id(p)] if isinstance(leafseq[i], int) else ids[id(p)] in leafseq[i]) else set()
         if k == 'seq':
             cur = {i}
             for x in p[1]:
@@ -507,7 +545,7 @@ def naive_match(p, leafseq, ctype=None):
                 if j < n:
                     for x in p[1]:
                         lid = ids[id(x)]
-                        if lid not in used and leafseq[j] == lid and x[3] != 0:
+                        if lid not in used and (leafseq[j] == lid if isinstance(leafseq[j], int) else lid in leafseq[j]) and x[3] != 0:
                             rec(j + 1, used | {lid})
             rec(i, frozenset())
             return out
@@ -1043,6 +1081,17 @@ class Validator:
         t = decl.type if decl is not None else ANYTYPE
         if decl is None:
             F.add('lax:undeclared-element')
+            if el.xtype is None:
+                # XSD 1.0 3.3.4: an element without declaration "may be laxly assessed" against the ur-type: whether declared
+                # descendants / attributes get validated is left to the processor; decided only when it cannot matter
+                sub = []
+                saved = set(F)
+                node = self._lax_subtree(el, sub)
+                F.intersection_update(saved)
+                F.add('lax:undeclared-element')
+                if sub:
+                    errs.append('unsupported:lax-assessment-of-undeclared-subtree')
+                return node
         nilled = False
         if decl is not None and decl.abstract:
             errs.append('abstract-element')
@@ -1156,17 +1205,27 @@ class Validator:
             F.add('mixed-text')
         if vc is not None and t.content != 'empty':
             errs.append('unsupported:value-constraint-on-complex-content')
-        # children against the particle
-        leafseq = []
+        # children against the particle: the matcher decides which leaf consumes each child
         plan = []
-        bad = False
+        failed = None
+        r = t.regex if t.content != 'empty' else None
         for k in kids:
-            lf = t.leaf_for(k.ns, k.local) if t.content != 'empty' else None
-            if lf is None:
-                bad = True
+            if r is None or failed:
                 plan.append((k, None, 'skip'))
                 continue
-            leafseq.append(lf[1])
+            cands = t.candidates(k.ns, k.local)
+            nxt = []
+            for c in cands:
+                d = deriv(r, c[1])
+                if d != VOID:
+                    nxt.append((c, d))
+            if not nxt:
+                failed = 'content-model-mismatch' if cands else 'child-not-allowed'
+                plan.append((k, None, 'skip'))
+                continue
+            if len(nxt) > 1:
+                raise ValueError('content model is not deterministic')
+            lf, r = nxt[0]
             if lf[0] == 'e':
                 if lf[3] is not lf[2]:
                     F.add('substitution-member')
@@ -1174,6 +1233,8 @@ class Validator:
             else:
                 pc = lf[2]
                 g = self.s.elems.get((k.ns, k.local))
+                if len(cands) > 1:
+                    F.add('overlapping-wildcards')
                 if pc == 'skip':
                     plan.append((k, None, 'skip'))
                 elif g is not None:
@@ -1187,14 +1248,30 @@ class Validator:
                         F.add('wildcard-strict:xsi-type-only')
                     plan.append((k, None, 'lax'))
         if t.content != 'empty':
-            if bad:
-                errs.append('child-not-allowed')
-                F.add('cm:' + cm_class(t))
-            elif not regex_match(t.regex, leafseq):
-                errs.append('content-model-mismatch')                    # cvc-complex-type.2.4
+            if failed is None and not nullable(r):
+                failed = 'content-model-mismatch'                        # cvc-complex-type.2.4
+            if failed:
+                errs.append(failed)
                 F.add('cm:' + cm_class(t))
         for (k, d, m) in plan:
             node.kids.append(self.v_elem(k, d, errs if m != 'skip' else [], m))
+        return node
+
+    def _lax_subtree(self, el, errs):
+        node = Node(el.ns, el.local)
+        node.assessed = False
+        if el.nil is not None:
+            errs.append('nil-without-declaration')
+        for (ns, local, v) in el.attrs:
+            g = self.s.gattrs.get((ns, local))
+            if g is not None and not st_value(g.type, v)[0]:
+                errs.append('attribute-value-invalid')
+        for k in el.elems():
+            g = self.s.elems.get((k.ns, k.local))
+            if g is not None or k.xtype is not None:
+                node.kids.append(self.v_elem(k, g, errs, 'lax'))
+            else:
+                node.kids.append(self._lax_subtree(k, errs))
         return node
 
     # ---- attributes -------------------------------------------------------------------------------------------------
@@ -1558,7 +1635,20 @@ def narrow(r, mn, mx):
 
 
 def gen_schema(r, force=None):
-    """random schema; returns Schema with .info (dict: focus type, root declarations, feature tags)"""
+    """random schema; returns Schema with .info (dict: focus type, root declarations, feature tags).  Every content model is
+    checked by the reference UPA checker (upa_check); a candidate that fails is discarded and another one is drawn."""
+    import random
+    for attempt in range(50):
+        r2 = random.Random(r.getrandbits(64))
+        try:
+            return _gen_schema(r2, force)
+        except ValueError as e:
+            if 'UPA' not in str(e):
+                raise
+    raise RuntimeError('no UPA-clean schema found')
+
+
+def _gen_schema(r, force=None):
     force = force or {}
     tns = force.get('tns', T if r.random() < 0.7 else None)
     efd = force.get('efd', r.random() < 0.6)
@@ -1716,7 +1806,26 @@ def gen_schema(r, force=None):
         return (kindp, [build(p_, depth + 1) for p_ in parts], mn, mx)
 
     f_items = x_items = []
-    if kind in ('elements', 'mixed'):
+    twowild = kind == 'elements' and not use_all and force.get('twowild', r.random() < 0.12)
+    if twowild:
+        # two wildcards over the SAME namespaces, kept deterministic by an exact count and a required element in between
+        tags.add('overlapping-wildcards')
+        nsc = r.choice([('set', frozenset([U])), ('set', frozenset([U, O])), ('other', tns), ('any',), ('set', frozenset([tns])), ('set', frozenset([tns, U]))])
+        k = r.choice([1, 2, 2, 3])
+        sep_ns = r.choice([tns, None, lns])
+        sep = EDecl(sep_ns, 'b', r.choice(simple_pool))
+        parts = []
+        if r.random() < 0.4:
+            parts.append(('e', EDecl(sep_ns, 'a', r.choice(simple_pool)), r.choice([0, 1]), 1))
+        pcs = [r.choice(['strict', 'lax', 'skip']), r.choice(['skip', 'skip', 'lax', 'strict'])]
+        parts.append(('any', nsc, pcs[0], k, k))
+        parts.append(('e', sep, 1, r.choice([1, 1, 2])))
+        parts.append(('any', nsc, pcs[1], 0, r.choice([UNB, 1, 2, 3])))
+        tags.add('wildcard-' + nsc[0])
+        tags.update('pc-' + x for x in pcs)
+        f_particle_forced = ('seq', parts, 1, 1)
+        named = True
+    elif kind in ('elements', 'mixed'):
         f_items = make_items(['a', 'b', 'c', 'd'], force.get('nitems', r.randint(1, 4)), True, use_all)
         if not f_items:
             f_items = [('e', local_decl('a'))]
@@ -1748,9 +1857,11 @@ def gen_schema(r, force=None):
         return out
     f_items = resolve(f_items)
     x_items = resolve(x_items)
-    if kind in ('elements', 'mixed') and not f_items:
+    if kind in ('elements', 'mixed') and not f_items and not twowild:
         f_items = [('e', local_decl('a'))]
     f_particle = build(f_items, 0, use_all) if f_items else None
+    if twowild:
+        f_particle = f_particle_forced
     if use_all:
         tags.add('all-group')
     # attributes
@@ -1781,7 +1892,7 @@ def gen_schema(r, force=None):
     rdecl = s.add_elem(EDecl(tns, 'r', F, glob=True, nillable=r.random() < 0.2, block=blockset(0.2, ('extension', 'restriction'))))
     roots = [('r', rdecl)]
     derived = []
-    if named:
+    if named and not twowild:
         # extension
         if r.random() < 0.85:
             xp = build(x_items, 1) if x_items else None
@@ -1868,4 +1979,8 @@ def alphabet(schema, t, builder):
         out['u:g1!'] = El(U, 'g1', [], ['notint'])
         if schema.tns is not None:
             out['x0'] = El(None, 'x0')
+        if any(nsc_allows(nsc, schema.tns) for (_, nsc, _) in t.wild):
+            g = schema.elems[(schema.tns, 'g')]
+            out.setdefault(qname(g.ns, g.local), builder.min_instance(g))
+            out[qname(g.ns, g.local) + '!'] = El(g.ns, g.local, [], ['notint'])
     return out
